@@ -182,6 +182,67 @@ def _who(p) -> str:
     return p if p in ("alice", "bob") else "other"
 
 
+class _SeqClient:
+    """Gives the i-th POST of a real client call its own extra headers; clears the logs before the last one so that
+    only the judged request is observed."""
+
+    def __init__(self, client, headers: list) -> None:
+        self._c, self.prefix, self._h, self.statuses = client, client.prefix, headers, []
+
+    def post(self, url, *, content, headers):
+        i = len(self.statuses)
+        if i == len(self._h) - 1:
+            W.reset()
+        r = self._c.post(url, content=content, headers={**headers, **self._h[min(i, len(self._h) - 1)]})
+        self.statuses.append(r.status_code)
+        return r
+
+    def __getattr__(self, k):
+        return getattr(self._c, k)
+
+
+def _call_exchange(client, proto, open_headers: dict, headers: dict):
+    """Open the exchange stream `ex` with `open_headers`, then make one exchange turn with `headers` (judged)."""
+    from vgi_rpc.http import http_connect
+
+    W.reset()
+    seq = _SeqClient(client, [open_headers, headers])
+    try:
+        with http_connect(proto, client=seq) as proxy:
+            sess = proxy.ex()
+            sess.exchange(W.AnnotatedBatch.from_pydict({"v": [1]}, schema=W.SCH))
+    except BaseException:  # noqa: BLE001 - the HTTP status and the logs are the observation
+        pass
+    opened = len(seq.statuses) >= 2
+    seen = [x for x in W.SEEN if x["where"] == "exchange"] if opened else []
+    log = list(W.LOG) if opened else []
+    first = seen[0] if seen else None
+    return {"status": seq.statuses[1] if opened else -seq.statuses[0] if seq.statuses else 0,
+            "run": "svc:exchange" in log,
+            "auth": bool(first and first["authenticated"]), "who": _who(first["principal"]) if first else "none",
+            "claim": (str((first["gate"] or {}).get("verified", "absent")) if first and first["gate"] is not None else "absent"),
+            "consistent": len({(x["authenticated"], x["domain"], x["principal"]) for x in seen}) <= 1,
+            "inner_calls": sum(1 for x in log if x.startswith("inner:")),
+            "domain": first["domain"] if first else None, "principal": first["principal"] if first else None}, log
+
+
+def _open_headers(case: dict, exp: dict, hdrs: dict) -> dict:
+    """Headers for the stream-opening request of an exchange case: they establish the identity the judged turn is
+    expected to run under (state tokens are bound to it); when the judged turn is expected to be refused, any
+    succeeding identity will do."""
+    out = exp["out"]
+    if out["run"] and out["who"] in ("none", "alice"):
+        h = {k: v for k, v in hdrs.items() if k != "VGI-Proxy-Proof"}
+        if case["mode"] == "require":
+            h["VGI-Proxy-Proof"] = _mint()
+        return h
+    if out["run"] and out["who"] == "proxy":
+        h = {k: v for k, v in hdrs.items() if k != "VGI-Proxy-Proof"}
+        h["VGI-Proxy-Proof"] = _mint(secret=SECRET2, kid=KID2) if case["proof"] == "valid_second_key" else _mint()
+        return h
+    return {"VGI-Proxy-Proof": _mint(), "X-Inner": "ok", "Authorization": "Bearer good-token"}
+
+
 def _call(client, server, kind: str, headers: dict):
     W.reset()
     h = {"Content-Type": world.ARROW_CT, **headers}
@@ -256,7 +317,7 @@ def run(ctx: Ctx) -> None:
     ctx.assume("the gate's clock is injected through proxy_proof_gate(now=...), proofs are minted with the real mint_proof",
                "'an anonymous request' = the same request against the same service with the gate removed (inner alone, "
                "or no authenticate callback); identity compared on authenticated + principal class")
-    server, _proto = W.build_service({"plain": "unary", "s": "producer"})
+    server, proto = W.build_service({"plain": "unary", "s": "producer", "ex": "exchange"})
     apps: dict = {}
 
     def app(mode, cache, impl, wrap):
@@ -284,9 +345,14 @@ def run(ctx: Ctx) -> None:
             if proof is not None:
                 hdrs["VGI-Proxy-Proof"] = proof
             if case["proof"] == "replayed":
-                _call(gated, server, case["kind"], {**hdrs, "X-Inner": "ok", "Authorization": "Bearer good-token"})   # first use
-            o, log = _call(gated, server, case["kind"], hdrs)
-            b, blog = _call(base, server, case["kind"], hdrs)
+                _call(gated, server, "unary", {**hdrs, "X-Inner": "ok", "Authorization": "Bearer good-token"})   # first use
+            if case["kind"] == "exchange":
+                oh = _open_headers(case, exp, hdrs)
+                o, log = _call_exchange(gated, proto, oh, hdrs)
+                b, blog = _call_exchange(base, proto, oh, hdrs)
+            else:
+                o, log = _call(gated, server, case["kind"], hdrs)
+                b, blog = _call(base, server, case["kind"], hdrs)
             obs = {k: o[k] for k in ("status", "run", "auth", "who", "inner_calls", "claim", "consistent")}
             obs.update({"b_status": b["status"], "b_run": b["run"], "b_auth": b["auth"], "b_who": b["who"], "side": "compose"})
             conc = {"headers": hdrs, "kind": case["kind"], "gated_log": log, "baseline_log": blog,
